@@ -180,3 +180,11 @@ def lemmas(ev: Any) -> tuple[list[Any], list[str], dict[str, Any]]:
                                       {"op": "reformat_text", "text": doc, "kwargs": {"width": 40, "semantic": False, "cleanups": False}}))
     info.update(inconclusive=(inconclusive if th else "L3/L4 run in the thorough tier"), queries=nq, unsat=nunsat, divergences=div[:8], divergences_confirmed_by_replay=confirmed, translation_validation_checks=tv, wall_s=round(time.time() - t0, 1))
     return findings, harness, info
+
+
+if __name__ == "__main__":
+    import json
+    import sys
+
+    f, h, i = lemmas(None)
+    json.dump({"findings": [dict(prop=x.prop, key=x.key, what=x.what, replay=x.replay) for x in f], "harness": h, "info": i}, open(sys.argv[1], "w"), default=str)
